@@ -192,9 +192,19 @@ func (conn *Conn) SetNoCopy(noCopy bool) {
 
 func (conn *Conn) write(call *Call) {
 	if conn.writeSched != nil {
+		// the reader closes writeSched after it has set shutdown under the mutex:
+		// scheduling under the same mutex keeps Schedule from racing with that Close
+		conn.mutex.Lock()
+		if conn.shutdown {
+			conn.mutex.Unlock()
+			call.Error = ErrShutdown
+			call.done()
+			return
+		}
 		conn.writeSched.Schedule(func() {
 			conn.send(call)
 		})
+		conn.mutex.Unlock()
 	} else {
 		conn.send(call)
 	}
